@@ -12,6 +12,14 @@ FORMULA_SETS = ['BMK', 'hotfixedBMK', 'BM10ex', 'BM10', 'BM10tw2']
 LP_SETS = ['BM10ex', 'BM10', 'BM10tw2']
 
 
+def in_real_code(e):
+    """True when the exception was raised in a frame of the package under study (a traceback frame under REPO/src), False
+    when it comes from the harness's own work (then it is a machinery fault, never a failing input of the property)"""
+    import traceback
+    src = os.path.join(common.REPO, 'src')
+    return any(f.filename.startswith(src) for f in traceback.extract_tb(e.__traceback__))
+
+
 def info():
     global INFO
     if INFO is None:
